@@ -95,12 +95,16 @@ def durLoop : Nat → List Char → Nat → Nat → Option (Option (Nat × Nat))
                   | some true => some none
                   | some false => durLoop fuel s3 (dlo + vlo) (dhi + vhi)
 
+/-- `[-+]?` -/
+def durSign : List Char → Bool × List Char
+  | '-' :: r => (true, r)
+  | '+' :: r => (false, r)
+  | s => (false, s)
+
 /-- does `time.ParseDuration(s)` succeed?  (`none`: not modelled) -/
 def durAccepts (s : List Char) : Option Bool :=
-  let (neg, s1) := match s with
-    | '-' :: r => (true, r)
-    | '+' :: r => (false, r)
-    | _ => (false, s)
+  let neg := (durSign s).1
+  let s1 := (durSign s).2
   if s1 = ['0'] then some true
   else if s1.isEmpty then some false
   else
